@@ -293,6 +293,8 @@ def run(ctx):
     ctx.extra["writer_unit_sites"] = nw
     ctx.floor("R2", nw, 9, "writer unit sites")
     check_vasp_mode_switch(ctx)
+    ctx.rule("R6", "Molden: the unit keyword of the [Atoms] line selects the coordinate factor (evaluated on every spelling)", "`[Atoms] (Angs)` coordinates are taken as bohr (or AU coordinates as angstrom): the geometry is off by 0.529 and the orbital check rejects a valid file")
+    check_molden_atoms_unit(ctx, "R6")
     ctx.rule("R5", "cell vectors and grid step vectors are scaled along the right axis", "each cell vector is multiplied by the point count of another axis: the loaded cell differs from the same system in another format")
     from .indexmaps import check_index_maps
 
@@ -402,3 +404,85 @@ def check_vasp_mode_switch(ctx, rid="R4"):
         ctx.violate(rid, f"a coordinate-mode line starting with `{c}`" + (f" after a `{pre[0]}` line" if pre else "") + f" is read as {'Cartesian' if got else 'direct'} (consumed {pos} line(s)); VASP treats exactly the first characters C, c, K, k as Cartesian ({len(bad)} of {ncase} cases differ)", f, body[iend], construct=f"vasp mode `{c}` -> {'cartesian' if got else 'direct'}")
     else:
         ctx.ok(rid, f"{ncase} cases (first character of the mode line x optional selective-dynamics line): Cartesian iff the line starts with one of `{VASP_CARTESIAN_KEYS}`", f"{f.module.relpath}:{body[iend].lineno}")
+
+
+# the unit keyword on the [Atoms] line of a Molden file: `[Atoms] (Angs|AU)` in the format description; programs write
+# it with and without the parentheses and in any case
+MOLDEN_ATOMS_LINES = {
+    "[Atoms] AU": "au", "[Atoms] (AU)": "au", "[ATOMS] AU": "au", "[atoms] au": "au", "[Atoms]  AU  ": "au",
+    "[Atoms] Angs": "angs", "[Atoms] (Angs)": "angs", "[ATOMS] ANGS": "angs", "[atoms] angs": "angs", "[Atoms]   (Angs) ": "angs",
+}
+
+
+def check_molden_atoms_unit(ctx, rid):
+    """The unit factor handed to the Molden atom reader, evaluated for every spelling of the `[Atoms]` line."""
+    import copy
+
+    from ..accessors import AccessorEval, Raised
+    from ..consteval import ConstEval, NotConstant
+    from ..symarr import NotSymbolic
+
+    prog = ctx.prog
+    f = prog.func("iodata.formats.molden._load_low")
+    ang = 1.8897261246257702  # stands for iodata.utils.angstrom (its value is R3's business); injected below
+    branch = None
+    for n in f.own_nodes():
+        if isinstance(n, ast.If) and any(isinstance(x, ast.Constant) and x.value == "[atoms]" for x in ast.walk(n.test)):
+            branch = n
+    if branch is None:
+        raise AnalysisError("molden._load_low: the [atoms] branch was not found")
+    line_var = next((x.id for x in ast.walk(branch.test) if isinstance(x, ast.Name)), None)
+    # the reader call and the factor argument
+    call = None
+    for st in branch.body:
+        for x in ast.walk(st):
+            if isinstance(x, ast.Call) and isinstance(x.func, ast.Name) and any(cs.node is x and cs.callees for cs in f.calls) and len(x.args) >= 2:
+                call = (st, x)
+    if call is None or line_var is None:
+        raise AnalysisError("molden._load_low: the call of the atom reader in the [atoms] branch was not found")
+    pre = branch.body[: branch.body.index(call[0])]
+    # how the section loop normalises a line
+    norm = None
+    for n in f.own_nodes():
+        if isinstance(n, ast.Assign) and len(n.targets) == 1 and isinstance(n.targets[0], ast.Name) and n.targets[0].id == line_var and any(isinstance(x, ast.Call) and isinstance(x.func, ast.Name) and x.func.id == "next" for x in ast.walk(n.value)):
+            norm = n.value
+    bad = []
+    for raw, unit in MOLDEN_ATOMS_LINES.items():
+        ev = AccessorEval(prog, None)
+        ev.module = f.module
+        ev._globals = {("iodata.utils", "angstrom"): ang}
+        text = raw
+        try:
+            if norm is not None:
+                class _Sub(ast.NodeTransformer):
+                    def visit_Call(self, node):
+                        if isinstance(node.func, ast.Name) and node.func.id == "next":
+                            return ast.Constant(raw + "\n")
+                        return self.generic_visit(node)
+
+                text = ev._eval(ast.fix_missing_locations(_Sub().visit(copy.deepcopy(norm))), {})
+            local = {line_var: text}
+            if not ev._eval(branch.test, local):
+                bad.append((raw, "is not recognised as the [Atoms] line"))
+                continue
+            ev._block(pre, local)
+            got = ev._eval(call[1].args[1], local)
+        except Raised as exc:
+            bad.append((raw, f"raises {exc.args[0]}"))
+            continue
+        except KeyError as exc:
+            bad.append((raw, f"leaves the unit factor `{exc.args[0]}` unset (the factor of an earlier section, or an UnboundLocalError, is used)"))
+            continue
+        except NotSymbolic as exc:
+            if "unbound" in str(exc) or "name" in str(exc):
+                bad.append((raw, f"leaves the unit factor unset ({exc})"))
+                continue
+            raise AnalysisError(f"molden [atoms] branch is outside the evaluation whitelist: {exc}") from exc
+        want = ang if unit == "angs" else 1.0
+        if not (isinstance(got, (int, float)) and abs(float(got) - want) <= 1e-15 * want):
+            bad.append((raw, f"gets the factor {got!r}, expected {'angstrom' if unit == 'angs' else '1 (atomic units)'}"))
+    if bad:
+        raw, why = bad[0]
+        ctx.violate(rid, f"Molden `{raw.strip()}` {why} ({len(bad)} of {len(MOLDEN_ATOMS_LINES)} spellings differ)", f, branch, construct=f"molden [Atoms] unit: {raw.strip()!r} {why}"[:170])
+    else:
+        ctx.ok(rid, f"Molden [Atoms] line: {len(MOLDEN_ATOMS_LINES)} spellings (AU / Angs, with and without parentheses, any case) select 1 / angstrom", f"{f.module.relpath}:{branch.lineno}")
